@@ -61,7 +61,8 @@ type Client struct {
 	// InjectConflicts: a rejected status write is, arbitrarily, a plain error or an optimistic-locking
 	// Conflict (somebody else modified the object since it was read).
 	InjectConflicts bool
-	// InjectNotFound: a rejected Delete is, arbitrarily, a plain error or a NotFound answer.
+	// InjectNotFound: a rejected Delete is, arbitrarily, a plain error or a NotFound answer, and a rejected
+	// Create a plain error or an AlreadyExists answer.
 	InjectNotFound bool
 	// FaultOnly, when set, restricts InjectFaults to the writes it accepts (verb, kind, name);
 	// every other write succeeds.  Used to afford large batches: one symbolic failing position.
@@ -343,6 +344,11 @@ func (c *Client) Create(ctx context.Context, obj client.Object, opts ...client.C
 	f := c.fault()
 	if f == 1 {
 		e.Failed = true
+		// InjectNotFound also lets a rejected Create be answered AlreadyExists (a name collision): for an
+		// object created from a generated name that is a failed creation like any other
+		if c.InjectNotFound && nondet.Bool("api.alreadyexists") {
+			return apierrors.NewAlreadyExists(schema.GroupResource{Resource: e.Kind}, obj.GetGenerateName()+obj.GetName())
+		}
 		return ErrInjected
 	}
 	if obj.GetName() == "" && obj.GetGenerateName() != "" {
